@@ -141,6 +141,75 @@ fn check_mapping<U: Clone + PartialEq + std::fmt::Debug>(v: &[u8], d: &D, name: 
     }
 }
 
+fn payload_len<T: Clone>(d: &VectorDiff<T>) -> Option<usize> {
+    match d {
+        VectorDiff::Append { values } | VectorDiff::Reset { values } => Some(values.len()),
+        _ => None,
+    }
+}
+
+fn spec16(d: &VectorDiff<u16>, v: &[u16]) -> Option<Vec<u16>> {
+    let mut v = v.to_vec();
+    match d {
+        VectorDiff::Append { values } => v.extend(values.iter().copied()),
+        VectorDiff::Clear => v.clear(),
+        VectorDiff::PushFront { value } => v.insert(0, *value),
+        VectorDiff::PushBack { value } => v.push(*value),
+        VectorDiff::PopFront => {
+            if !v.is_empty() {
+                v.remove(0);
+            }
+        }
+        VectorDiff::PopBack => {
+            v.pop();
+        }
+        VectorDiff::Insert { index, value } => {
+            if *index > v.len() {
+                return None;
+            }
+            v.insert(*index, *value)
+        }
+        VectorDiff::Set { index, value } => {
+            if *index >= v.len() {
+                return None;
+            }
+            v[*index] = *value
+        }
+        VectorDiff::Remove { index } => {
+            if *index >= v.len() {
+                return None;
+            }
+            v.remove(*index);
+        }
+        VectorDiff::Truncate { length } => {
+            if *length < v.len() {
+                v.truncate(*length)
+            }
+        }
+        VectorDiff::Reset { values } => v = values.iter().copied().collect(),
+    }
+    Some(v)
+}
+
+fn check_big<U: Clone + PartialEq + std::fmt::Debug>(v: &[u16], d: &VectorDiff<u16>, name: &str, f: impl Fn(u16) -> U + Copy, out: &mut Out) {
+    out.cases += 1;
+    let iv: Vector<u16> = v.iter().copied().collect();
+    let lhs_in: Vector<U> = v.iter().map(|x| f(*x)).collect();
+    let lhs = try_apply(d.clone().map(f), &lhs_in);
+    let rhs = try_apply(d.clone(), &iv).map(|r| r.into_iter().map(f).collect::<Vector<U>>());
+    out.applies += 2;
+    let exp = spec16(d, v).map(|r| r.into_iter().map(f).collect::<Vector<U>>());
+    if exp.is_none() {
+        out.panics_expected += 1;
+    }
+    let kind = mc::rep::diff_kind(d);
+    if lhs != rhs {
+        out.violations.push((format!("map-does-not-commute/{kind}/{name}/large"), format!("vector of length {}, {kind} with payload length {:?}, mapping {name}: apply(map(d), map(v)) differs from map(apply(d, v))", v.len(), payload_len(d))));
+    } else if rhs != exp {
+        out.violations.push((format!("apply-differs-from-documented-meaning/{kind}/large"), format!("vector of length {}, {kind} (payload length {:?}): apply differs from the documented meaning (or panics / fails to panic)", v.len(), payload_len(d))));
+    }
+}
+
 fn main() {
     explore::install_quiet_panic_hook();
     let cli = ev::parse_cli();
@@ -168,6 +237,36 @@ fn main() {
             }
         }
     }
+    // Shapes that cross imbl's internal chunking (leaves of 64 elements):
+    // every payload length 0..=max_big with canonical ordered content on
+    // vectors of selected lengths, and every index on those vectors.
+    let max_big: usize = if quick { 200 } else { 520 };
+    let mut big_pairs = 0u64;
+    for vlen in [0usize, 1, 63, 64, 65, 129] {
+        let v: Vec<u16> = (0..vlen as u16).collect();
+        let mut ds: Vec<VectorDiff<u16>> = vec![VectorDiff::Clear, VectorDiff::PopFront, VectorDiff::PopBack, VectorDiff::PushFront { value: 9000 }, VectorDiff::PushBack { value: 9001 }];
+        for plen in 0..=max_big {
+            let payload: Vector<u16> = (0..plen as u16).map(|x| 1000 + x).collect();
+            ds.push(VectorDiff::Append { values: payload.clone() });
+            ds.push(VectorDiff::Reset { values: payload });
+        }
+        for i in 0..=vlen + 1 {
+            ds.push(VectorDiff::Insert { index: i, value: 7777 });
+            ds.push(VectorDiff::Set { index: i, value: 7778 });
+            ds.push(VectorDiff::Remove { index: i });
+            ds.push(VectorDiff::Truncate { length: i });
+        }
+        for d in ds {
+            big_pairs += 1;
+            out.cases += 1;
+            if d.clone().map(|x| x) != d {
+                out.violations.push((format!("map-identity/{}", mc::rep::diff_kind(&d)), format!("a diff of kind {} on a vector of length {vlen} mapped with the identity is not equal to itself (payload length {:?})", mc::rep::diff_kind(&d), payload_len(&d))));
+            }
+            check_big(&v, &d, "plus10", |x| x as u32 + 10, &mut out);
+            check_big(&v, &d, "to_string", |x| format!("s{x}"), &mut out);
+        }
+    }
+    pairs += big_pairs;
     let wall = t0.elapsed().as_secs_f64();
     let mut seen = std::collections::BTreeSet::new();
     let mut replays = Vec::new();
@@ -189,14 +288,14 @@ fn main() {
             "engine": "seqmc",
             "evaluations": out.cases,
             "distinct_nontrivial": pairs,
-            "rule": "every vector of length 0..=max_len over 3 values x every diff of all eleven kinds with every index/length 0..=len+2 and every payload of length 0..=max_payload x four mappings (identity, +10 into u16, constant, to String) plus the identity-equality check; distinct_nontrivial = distinct (vector, diff) pairs",
+            "rule": "every vector of length 0..=max_len over 3 values x every diff of all eleven kinds with every index/length 0..=len+2 and every payload of length 0..=max_payload x four mappings (identity, +10 into u16, constant, to String) plus the identity-equality check; plus large shapes: vectors of length 0/1/63/64/65/129 x Append and Reset with every payload length 0..=max_big (ordered distinct content, crossing imbl's 64-element leaves) and every index for the other kinds; distinct_nontrivial = distinct (vector, diff) pairs",
             "samples": out.samples,
             "states": pairs.max(1),
             "transitions": out.applies.max(1),
             "traces_validated_against_impl": out.cases,
             "exhaustive": out.violations.is_empty(),
             "cap_hit": false,
-            "bounds": {"max_len": max_len, "max_payload_len": max_payload, "values": nvals},
+            "bounds": {"max_len": max_len, "max_payload_len": max_payload, "values": nvals, "large_shapes": {"vector_lengths": [0, 1, 63, 64, 65, 129], "payload_lengths": format!("0..={max_big}")}},
             "interesting_events": {"cases_that_must_panic": out.panics_expected},
             "violation_replays": replays,
         },
